@@ -152,4 +152,6 @@ def ops_for(rng, p, st, tier):
             ops.append(op)
     if getattr(p, "ro", False):
         ops = [o for o in ops if o["op"] in ("snap", "meta", "transcode", "rawtrav", "ser", "iter")]
+    elif getattr(p, "noany", False):
+        ops = [o for o in ops if o["op"] not in ("ref", "mut")]
     return ops
